@@ -32,6 +32,7 @@ pub mod c19proc;
 pub mod c19sess;
 pub mod frontdoor;
 pub mod c20;
+pub mod c20quic;
 pub mod pipes;
 
 pub struct PropDef {
